@@ -50,6 +50,7 @@ func (c *attachClient) PreAssign(e *Engine, st *State, lhs, rhs []ast.Expr, _ as
 			continue
 		}
 		if fld != c.sortF && fld != c.takeF {
+			c.otherStore(e, st, sel, fld)
 			continue
 		}
 		base := sel.X
@@ -104,6 +105,30 @@ func (c *attachClient) PreAssign(e *Engine, st *State, lhs, rhs []ast.Expr, _ as
 		}
 	}
 	return nil
+}
+
+// otherStore: any other field of a subquery that already exists (one that was not created on this path) may only be
+// set while it is known to be unset: whatever it says was decided for the operators seen so far, and a later
+// operator that folds itself into the same SELECT by setting it again would silently disappear.
+func (c *attachClient) otherStore(e *Engine, st *State, sel *ast.SelectorExpr, fld *types.Var) {
+	if fld == nil || !e.Reporting() || TypeStr(e.Info.TypeOf(sel.X)) != "*pql.subquery" {
+		return
+	}
+	base := sel.X
+	if e.HasTag(st, base, "fresh:chainSubquery") || e.HasTag(st, base, "fresh:addr") {
+		return
+	}
+	key := fmt.Sprintf("%s store %s.%s in case %s", c.fn, exprStr(base), fldName(fld), c.caseOf(e, sel))
+	unset := false
+	if bk := e.CanonSt(st, base); bk.OK {
+		if f := st.Get(bk.Key + "." + fldName(fld)); f != nil {
+			unset = f.Nil == 1 || f.HasEq && (f.Eq == "false" || f.Eq == "0" || f.Eq == `""`)
+		}
+	}
+	e.Site("C02/attach", key, sel, unset, "the field of the existing subquery is known to be unset here")
+	if !unset {
+		e.Site("C02/attach", key, sel, false, "a field of a subquery that already exists is set without knowing that it is still unset: an operator that folds itself into the previous SELECT a second time (or over an earlier decision) disappears from the result")
+	}
 }
 
 // opStore: an operator may only be put onto a subquery that was created for it on this path, or onto one with
